@@ -24,7 +24,7 @@ def set_engine(e):
 # ------------------------------------------------------------------------------------------------
 
 # representative non-ASCII code points (DESIGN 3.2); classes verified against native std at set-up
-R_CHARS = [0xE9, 0xC9, 0xDF, 0xA0, 0x3C9, 0x3A9, 0x65E5, 0x2028, 0x20AC, 0x1F600, 0x10400, 0x10428, 0x130]
+R_CHARS = [0xE9, 0xC9, 0xDF, 0xA0, 0x3C9, 0x3A9, 0x65E5, 0x2028, 0x20AC, 0x1F600, 0x10400, 0x10428, 0x130, 0xB2, 0x2082]
 # class table, filled from native (see native/charclass) or the defaults below
 R_CLASS = {
     0xE9: dict(alpha=1, upper=0, lower=1, ws=0, num=0, up=[0xC9], lo=[0xE9]),
@@ -40,6 +40,9 @@ R_CLASS = {
     0x10400: dict(alpha=1, upper=1, lower=0, ws=0, num=0, up=[0x10400], lo=[0x10428]),
     0x10428: dict(alpha=1, upper=0, lower=1, ws=0, num=0, up=[0x10400], lo=[0x10428]),
     0x130: dict(alpha=1, upper=1, lower=0, ws=0, num=0, up=[0x130], lo=[0x69, 0x307]),
+    # numeric for Rust's char::is_numeric / is_alphanumeric (category No) but not an identifier character in TypeScript
+    0xB2: dict(alpha=0, upper=0, lower=0, ws=0, num=1, up=[0xB2], lo=[0xB2]),
+    0x2082: dict(alpha=0, upper=0, lower=0, ws=0, num=1, up=[0x2082], lo=[0x2082]),
 }
 
 
@@ -492,11 +495,12 @@ class Vec:
 
 class HMap:
     """HashMap / BTreeMap: insertion-ordered association list; iteration order handled by Iter"""
-    __slots__ = ('items', 'ordered')
+    __slots__ = ('items', 'ordered', 'vty')
 
-    def __init__(self, items=None, ordered=False):
+    def __init__(self, items=None, ordered=False, vty=None):
         self.items = items if items is not None else []   # list of [k, v]
         self.ordered = ordered
+        self.vty = vty            # declared value type (syn Type node) when known: entry().or_default() needs it
 
     def __repr__(self):
         return ('BTreeMap' if self.ordered else 'HashMap') + repr(self.items)
@@ -614,7 +618,7 @@ def deep_clone(v):
         return Enum(v.ty, v.var, [deep_clone(x) for x in v.vals],
                     None if v.fields is None else {k: deep_clone(x) for k, x in v.fields.items()})
     if isinstance(v, HMap):
-        return HMap([[deep_clone(k), deep_clone(x)] for k, x in v.items], v.ordered)
+        return HMap([[deep_clone(k), deep_clone(x)] for k, x in v.items], v.ordered, getattr(v, 'vty', None))
     if isinstance(v, HSet):
         return HSet([deep_clone(k) for k in v.items], v.ordered)
     if isinstance(v, tuple):
